@@ -823,6 +823,9 @@ func (x *Exec) frameCases(ct *Contract, posts []*Env, st0 *State) {
 		if x.frameOnly != "" && c != x.frameOnly {
 			continue
 		}
+		if strings.HasPrefix(c, "L_") {
+			continue // private cells of this activation (or of an inlined callee): invisible to the caller
+		}
 		var cases []oblCase
 		for _, r := range x.topRets {
 			o, n := st0.get(c), r.st.get(c)
